@@ -59,13 +59,36 @@ def res(cls, cid="-", data="-", truth=True, **kw):
     return r
 
 
+def make_store(fhs, props, mode=None):
+    """FileHashStore(props); mode (or $HSVERIF_MODE) == "mp": USE_MULTIPROCESSING=True with the
+    multiprocessing primitives replaced by in-process stand-ins (the `_mp` code paths run,
+    no Manager processes are spawned); "mp-real": the real multiprocessing primitives."""
+    mode = mode or os.environ.get("HSVERIF_MODE", "th")
+    if mode == "th":
+        os.environ.pop("USE_MULTIPROCESSING", None)
+        return fhs.FileHashStore(props)
+    old = os.environ.get("USE_MULTIPROCESSING")
+    os.environ["USE_MULTIPROCESSING"] = "True"
+    try:
+        if mode == "mp":
+            from . import sched
+            with sched.patched_primitives():
+                return fhs.FileHashStore(props)
+        return fhs.FileHashStore(props)
+    finally:
+        if old is None:
+            os.environ.pop("USE_MULTIPROCESSING", None)
+        else:
+            os.environ["USE_MULTIPROCESSING"] = old
+
+
 class Driver:
     def __init__(self, inst, root, inputs, fhs=None, store=None):
         self.inst, self.root, self.inputs = inst, root, inputs
         if fhs is None:
             fhs, _ = load_hashstore()
         self.fhs = fhs
-        self.store = store if store is not None else fhs.FileHashStore(inst.props(root))
+        self.store = store if store is not None else make_store(fhs, inst.props(root))
         self.notes = []
 
     # ---- payload abstraction -------------------------------------------------
